@@ -228,6 +228,11 @@ func (b *BitMatrix) Rotate180() {
 			}
 		}
 	}
+	if b.width%32 == 0 {
+		for i := range b.bits {
+			b.bits[i] = bits.Reverse32(b.bits[i])
+		}
+	}
 }
 
 func (b *BitMatrix) Rotate90() {
